@@ -38,6 +38,7 @@ static std::string gen_message(Rng &r, const Cfg &c, std::string &desc)
         else if(n == "s") { static const char *S[] = {"", "x", "hello world", "q\"uo\"te", "per%cent", "new\nline", "back\\sl", "fifteen chars..", "tab\there", "#hash /slash"}; const char *v = S[r.below(10)]; rtosc_message(buf, sizeof buf, a.c_str(), "s", v); desc = a + " \"" + vis(v) + "\""; }
         else if(n == "arr") { int i = (int)r.below(8), v = r.chance(0.5) ? (int)r.range(-3, 3) : (int)r.range(-100, 100); a += std::to_string(i); rtosc_message(buf, sizeof buf, a.c_str(), "i", v); desc = a + fmt(" %d", v); }
         else if(n == "farr") { int i = (int)r.below(8); float v = r.chance(0.5) ? (float)r.range(-2, 2) / 2 : (float)r.range(-40, 40) / 8; if(r.chance(0.1)) { static const float TINY[] = {1e-39f, 3e-42f, 1.17549435e-38f, -1e-40f}; v = TINY[r.below(4)]; } a += std::to_string(i); rtosc_message(buf, sizeof buf, a.c_str(), "f", v); desc = a + fmt(" %g", v); }
+        else if(n == "inner") { a += "/w"; int v = (int)r.range(-8, 8); rtosc_message(buf, sizeof buf, a.c_str(), "i", v); desc = a + fmt(" %d", v); }
         else if(n == "bank" || n == "engine") { int v = (int)r.below(4); rtosc_message(buf, sizeof buf, a.c_str(), "i", v); desc = a + fmt(" %d", v); }
         else if(n == "mode") { int v = (int)r.below(10); rtosc_message(buf, sizeof buf, a.c_str(), "i", v); desc = a + fmt(" %d", v); }
         else { int v = (int)r.range(-5, 120); rtosc_message(buf, sizeof buf, a.c_str(), "i", v); desc = a + fmt(" %d", v); }
@@ -78,6 +79,7 @@ static void expect_leaf(const Leaf &l, const LeafCfg &L, const std::string &pre,
         else if(n == "farr") { for(int i = 0; i < 8; ++i) if(l.farr[i] != L.farr_def[i]) differs = true; }
         else if(n == "on") differs = l.on != L.on_def;
         else if(n == "mode") differs = l.mode != L.mode_def;
+        else if(n == "inner") { if(l.inner.w != L.w_def) out.insert(pre + "inner/w"); continue; }
         else if(n == "bank") differs = l.bank != L.bank_def;
         else if(n == "engine") differs = l.engine != L.engine_def;
         else if(n == "val") differs = l.val != L.val_def;
@@ -159,7 +161,7 @@ static void make_world(Rng &r, World &w, int nmsg_max, bool focus = false)
             std::string pre = prefixes[r.below(prefixes.size())];
             const LeafCfg &L = w.cfg.leaf;
             auto send = [&](const std::string &name, const char *types, int iv, float fv) {
-                if(!L.has(name.substr(0, name.find_first_of("0123456789")))) return;
+                if(!L.has(name.substr(0, name.find_first_of("0123456789/")))) return;
                 char buf[128];
                 std::string a = pre + L.pname(name);
                 if(types[0] == 'i') rtosc_message(buf, sizeof buf, a.c_str(), "i", iv); else if(types[0] == 'f') rtosc_message(buf, sizeof buf, a.c_str(), "f", fv); else rtosc_message(buf, sizeof buf, a.c_str(), types);
@@ -179,6 +181,7 @@ static void make_world(Rng &r, World &w, int nmsg_max, bool focus = false)
             if(r.chance(0.8)) send("a", "i", (int)r.range(200, 900), 0);
             if(r.chance(0.6)) send("b", "f", 0, (float)r.range(100, 300) / 4);
             if(r.chance(0.6)) send("val", "i", (int)r.range(1, 100), 0);
+            if(r.chance(0.6)) send("inner/w", "i", (int)r.range(10, 90), 0);
             if(r.chance(0.6)) send(fmt("arr%d", (int)r.below(8)), "i", (int)r.range(20, 90), 0);
         }
     }
